@@ -233,6 +233,17 @@ func (g *DependencyGraph) GetDependents(moduleName string) []string {
 	return nil
 }
 
+// sortedModuleSet returns the module names of a set in sorted order.
+// Ranging over it instead of the map gives a deterministic iteration order.
+func sortedModuleSet(set map[string]bool) []string {
+	names := make([]string, 0, len(set))
+	for name := range set {
+		names = append(names, name)
+	}
+	sort.Strings(names)
+	return names
+}
+
 // GetModuleNames returns all module names in the graph
 func (g *DependencyGraph) GetModuleNames() []string {
 	names := make([]string, 0, len(g.Nodes))
@@ -344,7 +355,8 @@ func (g *DependencyGraph) GetDependencyChain(from, to string) []string {
 		current := path[len(path)-1]
 
 		if node := g.Nodes[current]; node != nil {
-			for dep := range node.Dependencies {
+			// Sorted order so that the same shortest path is found on every run
+			for _, dep := range sortedModuleSet(node.Dependencies) {
 				if dep == to {
 					return append(path, dep)
 				}
